@@ -150,6 +150,15 @@ def _corpus_job(job):
         return {"kind": kind, "name": name, "status": st, "why": inc[:1]}
     if kind == "refactor":
         return {"kind": kind, "name": name, "status": "FALSE-ALARM" if keys else ("undecided" if inc else "silent"), "keys": keys[:3], "inconclusive": inc[:2]}
+    if not keys:
+        # a confirmed defect this check is documented not to decide (DESIGN 9.15): recorded in the evidence as an
+        # open blind spot of the check, with its reason; it becomes "fired" the day a rule reaches it
+        try:
+            why = json.load(open(os.path.join(os.path.dirname(patch), "meta.json"))).get("open")
+        except Exception:
+            why = None
+        if why:
+            return {"kind": kind, "name": name, "status": "open", "why": [why], "inconclusive": inc[:2]}
     return {"kind": kind, "name": name, "status": "fired" if keys else "MISSED", "keys": keys[:3], "inconclusive": inc[:2]}
 
 
